@@ -13,6 +13,7 @@ RULE = (
     "feedback 1..5 rounds, MAC 1..4 users x shared/per-user encoders x joint/separate decoders, branching under every truth assignment of <=4 overlapping conditions; parallel model: "
     "every completion permutation the executor can realise is FORCED by a schedule controller (n=1..5 branches, workers 1..n and default) with order-sensitive aggregators. "
     "Distinct = (model kind, configuration, history/schedule); non-trivial = >=2 stages/branches."
+    " Added after the seeded-fault rounds: one branching model across a sequence of inputs with overlapping conditions and a removal in between; parallel models with every one- and two-element subset of raising branches."
 )
 ASSUMPTIONS = [
     "a permutation pi is realisable with w workers iff pi[k] < w + k (FIFO dispatch); infeasible ones are not attempted",
